@@ -575,6 +575,16 @@ func eq(a, b *oracle.Image) bool { ok, _ := a.Equal(b); return ok }
 func TestCheck(t *testing.T) {
 	if vlib.IsWorker() {
 		vlib.Serve(func(in json.RawMessage) any {
+			var probe struct {
+				Loss string `json:"loss_kind"`
+			}
+			if json.Unmarshal(in, &probe) == nil && probe.Loss != "" {
+				var lc LossCase
+				if err := json.Unmarshal(in, &lc); err != nil {
+					return LossResult{Harness: "bad case"}
+				}
+				return runLoss(t, lc)
+			}
 			var c Case
 			if err := json.Unmarshal(in, &c); err != nil {
 				return Result{Harness: "bad case"}
@@ -655,7 +665,9 @@ func TestCheck(t *testing.T) {
 			samples = append(samples, map[string]any{"case": cases[i], "sequence": r.Script})
 		}
 	})
+	lossCov := lossPart(run, pool)
 	cov := map[string]any{
+		"authority_lost_mid_transaction": lossCov,
 		"states":                        ops,
 		"transitions":                   ops,
 		"traces_validated_against_impl": len(cases),
@@ -673,7 +685,7 @@ func TestCheck(t *testing.T) {
 	}
 	run.Finish(cov, []string{
 		"FUSE requests are issued by calling the handler methods of package litefs/fuse directly; the kernel's permission check on file modes is not modelled (the handlers must refuse on their own).",
-		"Loss of authority racing an in-flight commit (demotion, lease expiry, halt expiry at every point of a transaction) is explored by the schedule engine (C07 E2 part, see DESIGN.md).",
+		"Loss of authority in the middle of a local transaction is enumerated at the granularity of the application's file operations (before every operation of five transaction shapes, three kinds of loss); loss landing inside one FUSE operation after its own authority check is by the property's wording ('commit step begins after') not a violation and is not enumerated. Loss of a halt lock mid-transaction is C13's.",
 	})
 }
 
@@ -682,4 +694,92 @@ func tail(s string, n int) string {
 		return s[len(s)-n:]
 	}
 	return s
+}
+
+
+// lossPart runs part B: authority lost before every file operation of a local transaction on the primary.
+func lossPart(run *vlib.Run, pool *vlib.Pool) map[string]any {
+	type key struct {
+		wal   bool
+		shape string
+	}
+	var probes []LossCase
+	for _, wal := range []bool{false, true} {
+		for _, sh := range lossShapes[wal] {
+			probes = append(probes, LossCase{Loss: "none", WAL: wal, Shape: sh, K: -1})
+		}
+	}
+	info := map[key]LossResult{}
+	anyP := make([]any, len(probes))
+	for i := range probes {
+		anyP[i] = probes[i]
+	}
+	pool.Run(anyP, func(i int, out json.RawMessage, crash *vlib.Crash, flaky bool) {
+		var r LossResult
+		if crash != nil || json.Unmarshal(out, &r) != nil || r.Harness != "" || r.CommitStep < 0 {
+			run.HarnessError("loss probe %+v failed: %v %s", probes[i], crash, r.Harness)
+			return
+		}
+		info[key{probes[i].WAL, probes[i].Shape}] = r
+	})
+	var cases []LossCase
+	for _, p := range probes {
+		r, ok := info[key{p.WAL, p.Shape}]
+		if !ok {
+			continue
+		}
+		for _, loss := range []string{"demote", "revoke", "handoff"} {
+			for k := 0; k < r.Steps; k++ {
+				cases = append(cases, LossCase{Loss: loss, WAL: p.WAL, Shape: p.Shape, K: k, Commit: r.CommitStep})
+			}
+		}
+	}
+	anyC := make([]any, len(cases))
+	for i := range cases {
+		anyC[i] = cases[i]
+	}
+	classes := map[string]int{}
+	pool.Run(anyC, func(i int, out json.RawMessage, crash *vlib.Crash, flaky bool) {
+		if flaky {
+			run.HarnessError("loss case crashed once and passed on re-run: %+v", cases[i])
+		}
+		if crash != nil {
+			run.Violation("crash/loss/"+cases[i].Loss, fmt.Sprintf("worker died twice on %+v (timeout=%v)\n%s", cases[i], crash.Timeout, tail(crash.Output, 2500)), map[string]any{"loss_case": cases[i]})
+			return
+		}
+		var r LossResult
+		if err := json.Unmarshal(out, &r); err != nil {
+			run.HarnessError("bad result: %v", err)
+			return
+		}
+		if r.Harness != "" {
+			run.HarnessError("%s (case %+v)", r.Harness, cases[i])
+		}
+		for _, v := range r.V {
+			run.Violation(v.Key, v.What, map[string]any{"loss_case": cases[i], "trace": r.Trace})
+		}
+		mode := "journal"
+		if cases[i].WAL {
+			mode = "wal"
+		}
+		classes[mode+" "+cases[i].Loss+": "+r.Class]++
+	})
+	shapes := map[string]any{}
+	for k, r := range info {
+		mode := "journal"
+		if k.wal {
+			mode = "wal"
+		}
+		shapes[mode+"/"+k.shape] = map[string]any{"operations": r.Steps, "commit_step_at": r.CommitStep}
+	}
+	if len(cases) < 50 && run.NViolations() == 0 {
+		run.HarnessError("vacuous loss part: %d cases", len(cases))
+	}
+	return map[string]any{
+		"cases":           len(cases),
+		"shapes":          shapes,
+		"loss_kinds":      []string{"demote", "revoke", "handoff"},
+		"outcome_classes": classes,
+		"rule":            "for every transaction shape and kind of loss, the loss is injected before every file operation of the transaction (all positions) and the run continues to a settled cluster plus one follow-up commit by the next primary",
+	}
 }
